@@ -66,6 +66,18 @@ CLAIMED = {
              "not end in a word the library culls on purpose (of/the/in/and) and 'ALL' is not placed before ' of <Twp/Rge>' "
              "(the guide's false-match rule). Bounds: <= 3 Twp/Rge groups x <= 3 section groups.",
         design_ref="§5.1, §6 C01"),
+    "C20": dict(
+        technique="document shapes enumerated by TLC from the PlssDoc grammar, rendered and parsed in pairs (default vs "
+                  "mode); TLC trace validation of the relations between the two observations",
+        text="For document shapes enumerated from spec/PlssDoc.tla the harness parses each rendered text with and without "
+             "the optional mode and TLC checks the relation the property states: segment = same tracts; all sections with "
+             "colon => cautious/required = same tracts; no colon => cautious = same tracts plus a pulled_sec_without_colon "
+             "warning on description and tracts, required = exactly one tract holding the whole preprocessed text; "
+             "sec_within on (leading text, section list, trailing text) x 4 Twp/Rge placements => one tract per section "
+             "described by leading + trailing text with a sec_within warning each.",
+        note="Colon clauses are claimed for TRS_desc and S_desc_TR (the layouts whose documented rendering has a colon). "
+             "Trusted: rendering tables; (trs, desc) pairs compared exactly.",
+        design_ref="§6 C20"),
 }
 
 NOT_APPLICABLE = {
